@@ -295,11 +295,14 @@ func findReference(msaIn io.Reader, referenceID string) (fastaio.EncodedFastaRec
 
 		if first {
 
-			if line[0] != '>' {
+			if len(line) == 0 || line[0] != '>' {
 				return fastaio.EncodedFastaRecord{}, errors.New("badly formatted fasta file")
 			}
 
 			description = string(line[1:])
+			if len(strings.Fields(description)) == 0 {
+				return fastaio.EncodedFastaRecord{}, errors.New("badly formatted fasta file: header line without a sequence ID")
+			}
 			id = strings.Fields(description)[0]
 
 			if id == referenceID {
@@ -307,6 +310,10 @@ func findReference(msaIn io.Reader, referenceID string) (fastaio.EncodedFastaRec
 			}
 
 			first = false
+
+		} else if len(line) == 0 {
+			// skip blank lines
+			continue
 
 		} else if line[0] == '>' {
 
@@ -323,6 +330,9 @@ func findReference(msaIn io.Reader, referenceID string) (fastaio.EncodedFastaRec
 
 			counter++
 			description = string(line[1:])
+			if len(strings.Fields(description)) == 0 {
+				return fastaio.EncodedFastaRecord{}, errors.New("badly formatted fasta file: header line without a sequence ID")
+			}
 			id = strings.Fields(description)[0]
 			seqBuffer = make([]byte, 0)
 
